@@ -658,7 +658,10 @@ def generate(rng, index, tier, extra):  # pylint: disable=unused-argument
         if rng.random() < 0.3:
             from simverif import workload
             channel = rng.choice(workload.CHANNELS)
-            path, made = channel.cls_path, channel.make(rng).hex()
+            try:
+                path, made = channel.cls_path, channel.make(rng).hex()
+            except workload.SenderRejected:     # the sender is unusable on this tree (not this property's concern)
+                pass
         events = []
         for _ in range(rng.randrange(1, 5)):
             what = rng.choice(('overwrite', 'overwrite', 'fill', 'clear', 'extend', 'reverse'))
